@@ -8,10 +8,24 @@ LEVEL = 'other'
 EXPECTED_STDOUT = [('replay_parser.py', '<module>'), ('replay_unpack/replay_reader.py', 'ReplayReader._save_decrypted_data')]
 
 
+def exotic_roster(consts):
+    """legal values of every kind a pickled player record may carry (the client pickles whatever its Python holds): sets, frozensets, raw bytes,
+    tuples, complex, None, nested containers with bytes inside - for every mapped field except the five the summary is keyed on"""
+    exo = [{1, 2}, frozenset([3]), b'\xff\xfe', (1, 'a'), 2 + 3j, None, 1.5, [b'x', {'k': b'v'}], {'s': {4}}, True]
+    keys = [k for k in consts.id_property_map.values() if k not in ('id', 'name', 'shipId', 'teamId', 'avatarId')]
+    return {k: exo[i % len(exo)] for i, k in enumerate(sorted(keys))}
+
+
+def byteskey_roster(consts):
+    """a Python-2 dict with str keys inside a player record: pickle.loads(..., encoding='bytes') turns the keys into bytes"""
+    keys = sorted(k for k in consts.id_property_map.values() if k not in ('id', 'name', 'shipId', 'teamId', 'avatarId'))
+    return {keys[0]: {b'k': 1}}
+
+
 def run(ctx):
     ctx.rule = ('static: inventory of every print / sys.stdout.write in the package (AST) must be the two known, unreachable-while-parsing sites; dynamic: '
                 'json.dumps(get_info(), cls=DefaultEncoder) and the command-line tool on synthetic battles for bundled versions of all three games whose '
-                'entity ids are drawn from the dictionary of ALL integer literals of the source, and on real recordings; stdout must be exactly one JSON '
+                'entity ids are drawn from the dictionary of ALL integer literals of the source and whose pickled player records carry every kind of plain value (sets, frozensets, bytes, tuples, complex, None, nested), and on real recordings; stdout must be exactly one JSON '
                 'document equal to get_info(), exit code 0; non-trivial = every run; distinct by file')
     ctx.extra['explanation'] = ('Level "other": json.dumps, the interpreter\'s stdout and the process exit code are CPython\'s and are observed, not proved. '
                                 'Proved: the exact condition under which the shipped encoder refuses a finite tree (only dict keys). Exhaustive: the stdout-writer inventory.')
@@ -52,7 +66,7 @@ def run(ctx):
         chunks = [lits[i::len(picks)] for i in range(len(picks))]
         for v, ids in zip(picks, chunks):
             p = os.path.join(tmp, 'w-%s.wowsreplay' % v)
-            b, vs = battle.build_wows(v, random.Random(rng.randrange(10 ** 9)), join=False)
+            b, vs = battle.build_wows(v, random.Random(rng.randrange(10 ** 9)), join=False, roster_extra=exotic_roster)
             # position packets (and own-player position packets) for entities whose ids are source literals
             for eid in ids[:400]:
                 other = [n for n in b.md.names if n not in ('Avatar', 'Vehicle', 'BattleLogic')][0]
@@ -84,6 +98,18 @@ def run(ctx):
             if not (ok and same):
                 ctx.violation(dict(kind='cli-output', file=os.path.basename(f), exit_code=pr.returncode, stdout_head=pr.stdout[:300], stdout_is_one_json_document=doc is not None,
                                    equals_get_info=same, stderr_tail=pr.stderr[-300:], how='python replay_parser.py --replay <file>; json.loads(stdout)'))
+        # probe: a dict with bytes keys inside a pickled player record (what a Python-2 client's str-keyed dict becomes)
+        for v in picks[:2] + picks[-1:]:
+            p = os.path.join(tmp, 'bk-%s.wowsreplay' % v)
+            b, vs = battle.build_wows(v, random.Random(5), join=False, roster_extra=byteskey_roster)
+            battle.write_replay(p, 'wowsreplay', {'clientVersionFromXml': vs}, b.stream())
+            ctx.case(('bytes-key', v))
+            info = ReplayParser(p, strict=False).get_info()
+            try: json.dumps(info, cls=DefaultEncoder)
+            except TypeError as ex:
+                ctx.deviation('unserialisable-key', {'class': 'unserialisable-key', 'key_type': 'bytes', 'channel': 'pickled-player-record'},
+                              dict(kind='not-serialisable', version='wows/' + v, exception=str(ex)[:200],
+                                   how='a synthetic battle whose pickled player record holds {b"k": 1} under a mapped field; json.dumps(get_info(), cls=DefaultEncoder)'))
         ctx.sample(dict(files=[os.path.basename(f) for f in files[:5]], ids_from_literals=len(lits)))
     finally:
         shutil.rmtree(tmp, ignore_errors=True)
